@@ -42,7 +42,7 @@ fn gen(rng: &mut Rng, tier: Tier) -> Vec<Case> {
         let mg = rng.chance(1, 4);
         let mut h = gen_hist(rng, n, if small { 14 } else { 600 }, false, mg, base);
         if !small && rng.chance(1, 2) { let off = base + 50_000 + rng.below(1000); for k in 0..3u64 { h.init.push((off + k, off + 5 + 2 * k, 900 + k)); } } // a separated nested stack
-        if i % 6 == 5 { h.lift_to_top(rng.below(3)); } // at the top of the coordinate type
+        if i % 6 == 5 { h.lift_to_top(rng.below(4)); } // at the top of the coordinate type
         out.push(Case::new(if small { "boundary" } else { "random" }, enc(&h)));
     }
     out
